@@ -45,25 +45,47 @@ RE_CODE_SECTION = 'YR_RE_CODE_SECTION'
 
 
 def helper_layouts(prog, fixture=False):
-    """{helper: [sizes or ('param', index)]} for the _yr_emit_* helpers"""
-    out = {}
+    """{helper: [sizes or ('param', index)]} for the _yr_emit_* helpers: the sizes handed
+    to yr_arena_write_data in source order, a call of another emit helper standing for
+    what that helper writes (with its size parameters bound to the arguments)"""
+    fns = {}
     for f in prog.fns():
-        if not f.name.startswith('_yr_emit_') or (f.file != 'libyara/re.c' and not fixture):
-            continue
+        if f.name.startswith('_yr_emit_') and (f.file == 'libyara/re.c' or fixture):
+            fns[f.name] = f
+    memo = {}
+
+    def lay_of(f, depth=0):
+        if f.name in memo:
+            return memo[f.name]
+        memo[f.name] = []
         lay = []
         pnames = [p['name'] for p in f.params]
-        for c in f.calls():
-            if c.get('callee') != 'yr_arena_write_data':
-                continue
+        for c in sorted(f.calls(), key=lambda x: (x.get('l', 0), x['i'])):
+            cal = c.get('callee')
             a = f.call_args(c)
-            v = cu.const_of(cu.strip_casts(f, a[3]))
-            if v is not None:
-                lay.append(v)
-            else:
-                s = canon(f, a[3])
-                lay.append(('param', pnames.index(s)) if s in pnames else None)
-        out[f.name] = lay
-    return out
+            if cal == 'yr_arena_write_data':
+                v = cu.const_of(cu.strip_casts(f, a[3]))
+                if v is not None:
+                    lay.append(v)
+                else:
+                    s_ = canon(f, a[3])
+                    lay.append(('param', pnames.index(s_)) if s_ in pnames else None)
+            elif cal in fns and cal != f.name and depth < 4:
+                for x in lay_of(fns[cal], depth + 1):
+                    if isinstance(x, tuple):
+                        arg = cu.strip_casts(f, a[x[1]]) if x[1] < len(a) else None
+                        v = cu.const_of(arg) if arg is not None else None
+                        if v is not None:
+                            lay.append(v)
+                        elif arg is not None and arg['k'] == 'ref' and arg['name'] in pnames:
+                            lay.append(('param', pnames.index(arg['name'])))
+                        else:
+                            lay.append(None)
+                    else:
+                        lay.append(x)
+        memo[f.name] = lay
+        return lay
+    return {name: lay_of(f) for name, f in fns.items()}
 
 
 def _opcodes_of(f, e):
